@@ -266,10 +266,20 @@ func (r RV) text() string {
 	return ""
 }
 
+// A rule name that is not a plain word can only be written in quotes.
+func ruleNameText(n string) string {
+	for _, c := range n {
+		if !(c >= 'a' && c <= 'z' || c >= 'A' && c <= 'Z' || c >= '0' && c <= '9' || c == '_') {
+			return strconv.Quote(n)
+		}
+	}
+	return n
+}
+
 func rulesText(rules []Rule) string {
 	parts := make([]string, len(rules))
 	for i, r := range rules {
-		parts[i] = r.N + ": " + r.V.text()
+		parts[i] = ruleNameText(r.N) + ": " + r.V.text()
 	}
 	return "{" + strings.Join(parts, ", ") + "}"
 }
@@ -349,8 +359,8 @@ type renderer struct {
 func (r *renderer) rulesText(rules []Rule) string {
 	parts := make([]string, len(rules))
 	for i, ru := range rules {
-		name := ru.N
-		if r.l.Quoted {
+		name := ruleNameText(ru.N)
+		if r.l.Quoted && name == ru.N {
 			name = strconv.Quote(name)
 		}
 		v := ru.V.text()
